@@ -351,3 +351,154 @@ Proof.
 Qed.
 Theorem sub_names_b_iff a b : sub_names_b a b = true <-> Sub eq a b.
 Proof. unfold sub_names_b. apply sub_f_iff; [apply seqb_eq | lia | lia]. Qed.
+
+(** * Reflexivity, transitivity, independence of the resource parameter *)
+Lemma Forall2_fst_vsub_eq (l m : list (str * vtree)) :
+  Forall2 (fun x y => fst x = fst y /\ VSub eq (snd x) (snd y)) l m <-> l = m.
+Proof.
+  split.
+  - induction 1 as [|[k x] [k' y] l m [E1 E2] F IH]; [reflexivity|]. cbn [fst snd] in *.
+    apply VSub_eq_inv in E2. congruence.
+  - intros ->. induction m as [|[k x] m IH]; constructor; auto. split; [reflexivity | apply VSub_eq_refl].
+Qed.
+Lemma Opt2_vsub_eq (a b : option vtree) : Opt2 (VSub eq) a b <-> a = b.
+Proof.
+  split.
+  - inversion 1; subst; [reflexivity|]. f_equal. now apply VSub_eq_inv.
+  - intros ->. destruct b; constructor. apply VSub_eq_refl.
+Qed.
+Lemma FSub_eq_iff f g : FSub eq f g <-> f = g.
+Proof.
+  unfold FSub. rewrite Forall2_fst_vsub_eq, Opt2_vsub_eq. destruct f as [p1 r1 a1], g as [p2 r2 a2]; cbn [ft_async ft_params ft_result].
+  split; [intros [-> [-> ->]]; reflexivity | intros H; injection H as -> -> ->; auto].
+Qed.
+
+Lemma FSub_change (R R' : str -> str -> Prop) f g :
+  (ft_resfree f = true \/ (forall n m, R n m -> R' n m)) -> FSub R f g -> FSub R' f g.
+Proof.
+  intros Hc [H1 [H2 H3]]. split; [assumption|]. split.
+  - eapply Forall2_from_Forall; [|exact H2]. apply Forall_forall. intros [k x] Hin [k' y] [E1 E2].
+    split; [assumption|]. cbn [fst snd] in *. eapply VSub_change; [|exact E2].
+    destruct Hc as [Hc|Hc]; [left|now right]. unfold ft_resfree in Hc. apply andb_true_iff in Hc as [Hc _].
+    rewrite forallb_forall in Hc. apply (Hc _ Hin).
+  - inversion H3; subst; constructor. eapply VSub_change; [|eassumption].
+    destruct Hc as [Hc|Hc]; [left|now right]. unfold ft_resfree in Hc. apply andb_true_iff in Hc as [_ Hc].
+    match goal with E : Some _ = ft_result f |- _ => rewrite <- E in Hc end. exact Hc.
+Qed.
+
+Lemma MSub_refl m : NoDup (keys (m_imports m)) -> NoDup (keys (m_exports m)) -> MSub m m.
+Proof.
+  intros N1 N2. split.
+  - intros k x Hin. exists x. split; [now apply in_assoc2 | apply ESub_refl].
+  - intros k y Hin. exists y. split; [now apply in_assoc | apply ESub_refl].
+Qed.
+Lemma MSub_trans a b c : MSub a b -> MSub b c -> MSub a c.
+Proof.
+  intros [I1 E1] [I2 E2]. split.
+  - intros k x Hin. destruct (I1 _ _ Hin) as [y [Ey Hy]]. apply assoc2_in in Ey.
+    destruct (I2 _ _ Ey) as [z [Ez Hz]]. exists z. split; [assumption | eapply ESub_trans; eassumption].
+  - intros k z Hin. destruct (E2 _ _ Hin) as [y [Ey Hy]]. apply assoc_in in Ey.
+    destruct (E1 _ _ Ey) as [x [Ex Hx]]. exists x. split; [assumption | eapply ESub_trans; eassumption].
+Qed.
+
+Fixpoint wf_tree (t : tree) : Prop :=
+  let all := fix go (l : list (str * tree)) : Prop :=
+               match l with [] => True | (_, x) :: r => wf_tree x /\ go r end in
+  match t with
+  | XInst e | XTInst e => NoDup (keys e) /\ all e
+  | XComp i e | XTComp i e => (NoDup (keys i) /\ all i) /\ (NoDup (keys e) /\ all e)
+  | XMod m | XTMod m => NoDup (keys (m_imports m)) /\ NoDup (keys (m_exports m))
+  | _ => True
+  end.
+Lemma wf_all_in (l : list (str * tree)) k x :
+  (fix go (l : list (str * tree)) : Prop := match l with [] => True | (_, x) :: r => wf_tree x /\ go r end) l ->
+  In (k, x) l -> wf_tree x.
+Proof.
+  induction l as [|[k' y] l IH]; [intros _ []|]. intros [H1 H2] [E|Hin]; [injection E as -> ->; assumption | auto].
+Qed.
+
+Lemma resfree_child (l : list (str * tree)) k x :
+  forallb (fun kv => resfree (snd kv)) l = true -> In (k, x) l -> resfree x = true.
+Proof. intros H Hin. rewrite forallb_forall in H. apply (H _ Hin). Qed.
+
+Lemma Sub_refl n : forall a, (tdepth a <= n)%nat -> wf_tree a -> Sub eq a a.
+Proof.
+  induction n as [|n IH]; intros a Ha Hw; [destruct a; cbn [tdepth] in Ha; lia|].
+  assert (Hcov : forall e, (list_max (map (fun kv => tdepth (snd kv)) e) <= n)%nat -> NoDup (keys e) ->
+                           (fix go (l : list (str * tree)) : Prop := match l with [] => True | (_, x) :: r => wf_tree x /\ go r end) e ->
+                           forall k b, In (k, b) e -> exists a, assoc k e = Some a /\ Sub eq a b).
+  { intros e He Hn Hall k b Hin. exists b. split; [now apply in_assoc|].
+    apply IH; [eapply depth_child; eassumption | eapply wf_all_in; eassumption]. }
+  destruct a; cbn [tdepth] in Ha; cbn [wf_tree] in Hw; constructor;
+    try apply FSub_eq_iff; try apply VSub_eq_refl; try reflexivity;
+    try (apply MSub_refl; tauto); try (apply Hcov; [lia | tauto | tauto]).
+Qed.
+
+Lemma Sub_trans n : forall a b c, (tdepth b <= n)%nat -> Sub eq a b -> Sub eq b c -> Sub eq a c.
+Proof.
+  induction n as [|n IH]; intros a b c Hb H1 H2; [destruct b; cbn [tdepth] in Hb; lia|].
+  assert (Hcov : forall ea eb ec, (list_max (map (fun kv => tdepth (snd kv)) eb) <= n)%nat ->
+            (forall k b, In (k, b) eb -> exists a, assoc k ea = Some a /\ Sub eq a b) ->
+            (forall k c, In (k, c) ec -> exists b, assoc k eb = Some b /\ Sub eq b c) ->
+            (forall k c, In (k, c) ec -> exists a, assoc k ea = Some a /\ Sub eq a c)).
+  { intros ea eb ec Heb Hab Hbc k z Hin. destruct (Hbc _ _ Hin) as [y [Ey Hy]]. apply assoc_in in Ey.
+    destruct (Hab _ _ Ey) as [x [Ex Hx]]. exists x. split; [assumption|].
+    eapply IH; [eapply depth_child; eassumption | eassumption | eassumption]. }
+  inversion H1; subst; inversion H2; subst; cbn [tdepth] in Hb; constructor;
+    try (match goal with
+         | A : FSub eq _ _, B : FSub eq _ _ |- _ => apply FSub_eq_iff in A; apply FSub_eq_iff in B; apply FSub_eq_iff; congruence
+         | A : VSub eq _ _, B : VSub eq _ _ |- _ => apply VSub_eq_inv in A; apply VSub_eq_inv in B; subst; apply VSub_eq_refl
+         | A : MSub _ _, B : MSub _ _ |- _ => eapply MSub_trans; eassumption
+         | A : ?n = ?m, B : ?m = ?k |- ?n = ?k => congruence
+         end); try reflexivity.
+  - eapply Hcov; [|eassumption|eassumption]. lia.
+  - eapply (Hcov ib0 ib ia); [|eassumption|eassumption]. lia.
+  - eapply Hcov; [|eassumption|eassumption]. lia.
+  - eapply Hcov; [|eassumption|eassumption]. lia.
+  - eapply (Hcov ib0 ib ia); [|eassumption|eassumption]. lia.
+  - eapply Hcov; [|eassumption|eassumption]. lia.
+Qed.
+
+Lemma Sub_change (R R' : str -> str -> Prop) n : forall a b, (tdepth a <= n)%nat -> (tdepth b <= n)%nat ->
+  ((resfree a = true /\ resfree b = true) \/ (forall n m, R n m -> R' n m)) -> Sub R a b -> Sub R' a b.
+Proof.
+  induction n as [|n IH]; intros a b Ha Hb Hc HS; [destruct a; cbn [tdepth] in Ha; lia|].
+  assert (Hcov : forall ea eb, (list_max (map (fun kv => tdepth (snd kv)) ea) <= n)%nat ->
+                               (list_max (map (fun kv => tdepth (snd kv)) eb) <= n)%nat ->
+            ((forallb (fun kv => resfree (snd kv)) ea = true /\ forallb (fun kv => resfree (snd kv)) eb = true)
+             \/ (forall n m, R n m -> R' n m)) ->
+            (forall k b, In (k, b) eb -> exists a, assoc k ea = Some a /\ Sub R a b) ->
+            (forall k b, In (k, b) eb -> exists a, assoc k ea = Some a /\ Sub R' a b)).
+  { intros ea eb Hea Heb Hc' H k y Hin. destruct (H _ _ Hin) as [x [Ex Hx]]. exists x. split; [assumption|].
+    pose proof (assoc_in _ _ _ Ex) as Hinx.
+    apply IH; [exact (depth_child ea k x n Hea Hinx) | exact (depth_child eb k y n Heb Hin) | | assumption].
+    destruct Hc' as [[C1 C2]|C]; [left|now right].
+    split; [exact (resfree_child ea k x C1 Hinx) | exact (resfree_child eb k y C2 Hin)]. }
+  inversion HS; subst; cbn [tdepth] in Ha, Hb; constructor;
+    try (eapply FSub_change; [|eassumption]; destruct Hc as [[C1 C2]|C]; [left; exact C1 | now right]);
+    try (eapply VSub_change; [|eassumption]; destruct Hc as [[C1 C2]|C]; [left; exact C1 | now right]);
+    try assumption.
+  - apply (Hcov ea eb); [lia | lia | | assumption]. destruct Hc as [[C1 C2]|C]; [left; now split | now right].
+  - apply (Hcov ib ia); [lia | lia | | assumption].
+    destruct Hc as [[C1 C2]|C]; [left | now right]. cbn [resfree] in C1, C2.
+    apply andb_true_iff in C1 as [? ?], C2 as [? ?]. now split.
+  - apply (Hcov ea eb); [lia | lia | | assumption].
+    destruct Hc as [[C1 C2]|C]; [left | now right]. cbn [resfree] in C1, C2.
+    apply andb_true_iff in C1 as [? ?], C2 as [? ?]. now split.
+  - destruct Hc as [[C1 C2]|C]; [discriminate | auto].
+  - apply (Hcov ea eb); [lia | lia | | assumption]. destruct Hc as [[C1 C2]|C]; [left; now split | now right].
+  - apply (Hcov ib ia); [lia | lia | | assumption].
+    destruct Hc as [[C1 C2]|C]; [left | now right]. cbn [resfree] in C1, C2.
+    apply andb_true_iff in C1 as [? ?], C2 as [? ?]. now split.
+  - apply (Hcov ea eb); [lia | lia | | assumption].
+    destruct Hc as [[C1 C2]|C]; [left | now right]. cbn [resfree] in C1, C2.
+    apply andb_true_iff in C1 as [? ?], C2 as [? ?]. now split.
+Qed.
+
+(** On resource-free trees the property's relation and the name-comparing relation coincide. *)
+Theorem SubCM_iff_names a b : resfree a = true -> resfree b = true -> (SubCM a b <-> Sub eq a b).
+Proof.
+  intros Ra Rb. unfold SubCM. split; intro H.
+  - eapply (Sub_change NoRes eq (Nat.max (tdepth a) (tdepth b))); [lia | lia | right; intros ? ? [] | exact H].
+  - eapply (Sub_change eq NoRes (Nat.max (tdepth a) (tdepth b))); [lia | lia | left; now split | exact H].
+Qed.
